@@ -325,14 +325,26 @@ func (w *c01worker) judge(who string, want ref.State, mr *mem.Image, got ref.Sta
 func (w *c01worker) single(s0 ref.State, base *mem.Image, stale bool, g *vf.Rng, phase string) (ref.Info, bool, bool) {
 	mr := base.Clone()
 	sr := s0
+	// one case in twelve: an interrupt request is latched when the step begins (the boundary-directed
+	// states put the stack pointer, among others, on its edges)
+	irq := s0.P&0x04 == 0 && g.Intn(12) == 0
+	if irq {
+		ref.EnterIRQ(&sr, mem.RefMem{M: mr})
+	}
+	entered := sr
 	inf := ref.Step(&sr, mem.RefMem{M: mr})
-	if hazard(mr, inf, s0) {
+	if hazard(mr, inf, entered) {
 		w.extra["skipped_hazard"]++
 		return inf, false, true
 	}
 	mp := base.Clone()
 	w.rig.loadPrim(s0, stale, g)
 	w.rig.loadAltFromPrim()
+	if irq {
+		w.rig.prim.TriggerIRQ()
+		w.rig.alt.TriggerIRQ()
+		w.cells["interrupt:irq-latched-at-single-step"]++
+	}
 	rp := w.rig.stepPrim(mp)
 	ma := base.Clone()
 	ra := w.rig.stepAlt(ma)
